@@ -6,7 +6,7 @@ statement by statement; list-valued locals become sequences of Items:
   Item(kind='seg'|'elem', label=<normalised source of what was added>, cond=<tuple of guards>)
 
 Understood statements: `x = []`, `x = e[::]` / `list(e)` / `e.copy()`, `x.append(e)`,
-`x.extend(e)`, `x += e`, `x = x + e`, `if c: ...` (items added under a condition carry it),
+`x.extend(e)`, `x += e`, `x = x + e`, `if c: ...` (items added under a condition carry it; a conditional `x = [...]` keeps the old items under the negated condition),
 `return x`, and calls `self.method(top)` whose callee (resolved through the MRO by the
 caller-supplied resolver) is evaluated recursively and inlined.  Any other statement that
 touches a tracked list raises AnalysisError.
@@ -79,7 +79,12 @@ class SeqEval:
                         (isinstance(v, ast.BinOp) and isinstance(v.op, ast.Add) and self._mentions(v, env)) or \
                         (isinstance(v, (ast.Subscript, ast.Call)) and self._list_like(v, env)):
                     if cond and name in env and env[name]:
-                        raise AnalysisError(f"conditional re-assignment of non-empty tracked list {name}")
+                        # x = [...] under a condition: the new contents hold under `cond`, the old ones survive only when it fails
+                        newseq = self.seq_of(v, env, cond, depth)
+                        neg = f"not ({' and '.join(cond)})"
+                        env[name] = [Item(i.kind, i.label, i.cond + (neg,)) for i in env[name]
+                                     if not all(c in i.cond for c in cond)] + newseq
+                        continue
                     env[name] = self.seq_of(v, env, cond, depth)
                 elif name in env:
                     raise AnalysisError(f"tracked list {name} re-assigned from an opaque value: {norm(st)}")
